@@ -8,6 +8,7 @@ CONSTANTS
   AssignImpl = "fixed"
   WM = 8
   ConstructSlots <- Slots2
+  Unbounded = FALSE
   Ops <- AllOps
   EmitAll = TRUE
 VIEW View
